@@ -88,13 +88,23 @@ fn encode(frame: &FrameCase, crlf: bool) -> Vec<u8> {
 fn judge(orig: &Frame<'static>, mutant: &[u8]) -> Result<(), String> {
     // the same damaged text decoded twice in a row: each result is judged on its own (a decoder that remembers the
     // last line must not let it through the second time)
-    judge_once(orig, mutant)?;
-    judge_once(orig, mutant).map_err(|e| format!("{e} (when the same text was decoded a second time)"))
+    judge_result(orig, mutant, Frame::from_bytes(mutant))?;
+    judge_result(orig, mutant, Frame::from_bytes(mutant)).map_err(|e| format!("{e} (when the same text was decoded a second time)"))?;
+    // the same text arriving as the last line of a stream (Frame::read): a damaged frame is a damaged frame on that path
+    // too. Only texts that are one line (no line feed before the end) - Frame::read stops at the first line feed.
+    if !mutant[..mutant.len().saturating_sub(1)].contains(&b'\n') {
+        let mut stream: &[u8] = mutant;
+        let r = Frame::read(&mut stream);
+        if stream.is_empty() {
+            judge_result(orig, mutant, r).map_err(|e| format!("{e} (read from a stream that ends after it)"))?;
+        }
+    }
+    Ok(())
 }
 
 #[inline]
-fn judge_once(orig: &Frame<'static>, mutant: &[u8]) -> Result<(), String> {
-    match Frame::from_bytes(mutant) {
+fn judge_result(orig: &Frame<'static>, mutant: &[u8], result: Result<Frame<'static>, flipdot_core::FrameError>) -> Result<(), String> {
+    match result {
         Err(_) => Ok(()),
         Ok(f) if &f == orig => {
             // second sentence of the property: even when the result happens to equal the original, a text whose
